@@ -46,3 +46,20 @@ func (m *NodeManager) VerifStopBlockSync(ctx context.Context) {
 	}
 	m.blockManagerLock.Unlock()
 }
+
+// VerifAddNode puts a node into the manager's list of connections, as the manager does itself
+// after dialing a peer, so that its selection (nextNode) can be exercised with nodes in chosen
+// states. VerifSetNextNodeOffset sets the round-robin position.
+func (m *NodeManager) VerifAddNode(node *BitcoinNode) {
+	m.Lock()
+	defer m.Unlock()
+
+	m.nodes = append(m.nodes, &nodeThread{node: node, id: node.ID()})
+}
+
+func (m *NodeManager) VerifSetNextNodeOffset(offset int) {
+	m.Lock()
+	defer m.Unlock()
+
+	m.nextNodeOffset = offset
+}
